@@ -72,7 +72,8 @@ fn rdh_for(fmt: u8, payload_len: usize, page: u16, stop: u8) -> Rdh {
 fn check_validator(fmt: u8, n: usize, ff: usize, mode: Mode) -> Option<(String, String)> {
     let p = build_payload(fmt, n, ff);
     // an offset with a leading hexadecimal letter: the message must also be acceptable to the statistics stage
-    let pos = 0xF000u64;
+    // ... and, for every second shape, an offset beyond 2^32 (files larger than 4 GiB)
+    let pos = if (n + ff) % 2 == 0 { 0xF000u64 } else { 0x1_0000_F000u64 };
     let r = rdh_for(fmt, p.len(), 0, 0);
     let out = val::validate_link(val::mode_cfg(mode), &[(r.encode().to_vec(), p.clone(), pos)]);
     if let Some(pn) = out.panic {
